@@ -48,7 +48,6 @@ type envTarEntry struct {
 
 var envChrooted bool
 var envBase []envNode
-var envOut bytes.Buffer
 var envFaultN int
 
 func verifNativeReset() {}
@@ -81,7 +80,8 @@ func envReset() {
 		os.RemoveAll("/" + e.Name())
 	}
 	envBase = nil
-	envOut.Reset()
+	envOuts = nil
+	envHook = nil
 	envFaultN = 0
 }
 
@@ -323,16 +323,28 @@ func envTarReader(entries []envTarEntry, truncated bool) io.Reader {
 	return &envFailReader{r: bytes.NewReader(b)}
 }
 
-type envFailWriter struct{ n int }
+type envFailWriter struct {
+	n   int
+	buf *bytes.Buffer
+}
 
 func (f *envFailWriter) Write(p []byte) (int, error) {
 	f.n++
+	if hook := envHook; hook != nil {
+		envHook = nil
+		hook()
+	}
 	if envFaultAt > 0 && f.n >= envFaultAt {
 		envFaultHits++
 		return 0, errors.New("injected write fault")
 	}
-	return envOut.Write(p)
+	return f.buf.Write(p)
 }
+
+var envHook func()
+var envOuts []*bytes.Buffer
+
+func envOnFirstWrite(f func()) { envHook = f }
 
 type envFailReader struct {
 	r io.Reader
@@ -353,7 +365,11 @@ func (f *envFailReader) Read(p []byte) (int, error) {
 
 var envFaultAt, envFaultHits int
 
-func envWriter() io.Writer { return &envFailWriter{} }
+func envWriter() io.Writer {
+	b := &bytes.Buffer{}
+	envOuts = append(envOuts, b)
+	return &envFailWriter{buf: b}
+}
 
 func envFaultRuns() int { return 12 }
 func envFaultArm(run, budget int) {
@@ -361,8 +377,13 @@ func envFaultArm(run, budget int) {
 	envFaultHits = 0
 }
 
-func envTarWritten() []envTarEntry {
-	gz, err := gzip.NewReader(bytes.NewReader(envOut.Bytes()))
+func envTarWritten() []envTarEntry { return envTarWrittenBy(0) }
+
+func envTarWrittenBy(i int) []envTarEntry {
+	if i >= len(envOuts) {
+		return nil
+	}
+	gz, err := gzip.NewReader(bytes.NewReader(envOuts[i].Bytes()))
 	if err != nil {
 		return nil
 	}
@@ -383,4 +404,11 @@ func envTarClosed() bool { return true }
 func envSetFaults(n int) { envFaultN = n }
 func envFaultsHit() int  { return envFaultHits }
 
-func envTarResetOutput() { envOut.Reset() }
+func envTarResetOutput() { envOuts = nil }
+
+func envRewriteFile(path, data string) {
+	info, err := os.Stat(path)
+	envMust(err)
+	envMust(os.WriteFile(path, []byte(data), 0644))
+	envMust(os.Chtimes(path, info.ModTime(), info.ModTime())) // the edit keeps the recorded time (the model does too)
+}
